@@ -546,3 +546,37 @@ func VerifH_c02_setrange() {
 	vAssert("setrange-value", vIsBulk(vCmd(cs, "GET", "k"), string(want)))
 	vReach("setrange-pad", o > len(s))
 }
+
+// VerifH_c02_incrbyfloat: INCRBYFLOAT result text (reply and stored value),
+// TTL kept, errors for non-numeric values, wrong types and non-finite results.
+func VerifH_c02_incrbyfloat() {
+	VerifSetup()
+	cs := vNewClient()
+	v := vFloatVectors[vChoice("vector", len(vFloatVectors))]
+	hadTTL := false
+	if v.old != "" {
+		vCmd(cs, "SET", "k", v.old)
+		if vBool("ttl") {
+			vCmd(cs, "EXPIRE", "k", "1000")
+			hadTTL = true
+		}
+	}
+	r := vCmd(cs, "INCRBYFLOAT", "k", v.incr)
+	vAssert("incrbyfloat-reply-text", vIsText(r, v.want))
+	vAssert("incrbyfloat-stored-text", vIsBulk(vCmd(cs, "GET", "k"), v.want))
+	want := int64(-1)
+	if hadTTL {
+		want = 1
+	}
+	vAssert("incrbyfloat-keeps-ttl", vTTLState(cs, "k") == want)
+	vCmd(cs, "SET", "t", "abc")
+	vAssert("incrbyfloat-non-numeric-error", vIsErr(vCmd(cs, "INCRBYFLOAT", "t", "1")))
+	vAssert("incrbyfloat-non-numeric-inert", vIsBulk(vCmd(cs, "GET", "t"), "abc"))
+	vCmd(cs, "RPUSH", "l", "1")
+	vAssert("incrbyfloat-wrongtype", vIsErr(vCmd(cs, "INCRBYFLOAT", "l", "1")))
+	vCmd(cs, "SET", "big", "1e308")
+	vAssert("incrbyfloat-overflow-error", vIsErr(vCmd(cs, "INCRBYFLOAT", "big", "1e308")))
+	vAssert("incrbyfloat-overflow-inert", vIsBulk(vCmd(cs, "GET", "big"), "1e308"))
+	vAssert("incrbyfloat-inf-error", vIsErr(vCmd(cs, "INCRBYFLOAT", "nokey", "inf")))
+	vAssert("incrbyfloat-inf-creates-nothing", vIsInt(vCmd(cs, "EXISTS", "nokey"), 0))
+}
